@@ -104,7 +104,7 @@ def volumes(rng, n, kind=None):
 # velocity gradients
 
 L_KINDS = ("simple_shear", "pure_shear", "axisym_comp", "axisym_ext", "general_tracefree",
-           "general_trace", "rank1", "shear_plus_spin", "rotated_shear")
+           "general_trace", "rank1", "shear_plus_spin", "rotated_shear", "pure_spin")
 
 
 def velgrad(rng, kind=None, unit=True):
@@ -134,6 +134,10 @@ def velgrad(rng, kind=None, unit=True):
         L[0, 1] = 2.0
         w = rng.normal(size=3) * 2
         L += np.array([[0, -w[2], w[1]], [w[2], 0, -w[0]], [-w[1], w[0], 0]])
+    elif kind == "pure_spin":
+        # rigid rotation: the strain-rate tensor is exactly zero while L is not
+        w = rng.normal(size=3) * 2
+        L = np.array([[0, -w[2], w[1]], [w[2], 0, -w[0]], [-w[1], w[0], 0]])
     elif kind == "rotated_shear":
         Q = haar(rng)
         S = np.zeros((3, 3))
